@@ -102,6 +102,13 @@ def run_case(kind, params):
         nmax = max(len(p) for p in params["peaks"])
         shared = impl.alloc_out(nmax, prefill=float("nan"))
         shared[0][:] = -12345
+        if params.get("out_layout") == "column":
+            # the caller keeps its results in tables (one column per frame / one field per quantity): the output arrays are
+            # strided views, pre-filled like the separately allocated ones
+            tc = np.full((nmax, 2, 3), -12345, dtype=shared[0].dtype)
+            tr = np.full((nmax, 2, 3), np.nan, dtype=np.float32)
+            th = np.full((nmax, 4), np.nan, dtype=np.float32)
+            shared = (tc[:, :, 1], tr[:, :, 2], th[:, 1], th[:, 3])
         for callno, (fk, peaks) in enumerate(zip(params["frame_kinds"], params["peaks"])):
             frame = impl.noise_frame(rng, shape, fk)
             peaks = np.asarray(peaks, dtype=np.int64)
@@ -245,7 +252,8 @@ def gen_history(rng, k):
     return {"seed": int(rng.integers(1 << 30)), "pattern": pat, "shape": list(shape),
             "cap": int(rng.integers(1, 12)), "backend": "slicing" if k % 2 else "pixel",
             "pipeline": "fast" if (k // 2) % 2 == 0 else "full", "upsample": [False, 4][(k // 4) % 2],
-            "frame_kinds": [kinds[int(rng.integers(5))] for _ in range(ncalls)], "peaks": peaks}
+            "frame_kinds": [kinds[int(rng.integers(5))] for _ in range(ncalls)], "peaks": peaks,
+            "out_layout": "column" if (k // 3) % 3 == 1 else "separate"}
 
 
 def search(ctx, boost=1, focus=()):
